@@ -16,7 +16,7 @@ type HistoryCase struct {
 	Ops []projsim.Op   `json:"ops"`
 }
 
-var buildFileEdits = map[string]bool{"const": true, "body": true, "dep-add": true, "dep-del": true, "src-add": true, "src-del": true, "target-add": true, "target-del": true}
+var buildFileEdits = map[string]bool{"const": true, "const-alias": true, "ord-add": true, "ord-del": true, "body": true, "dep-add": true, "dep-del": true, "src-add": true, "src-del": true, "target-add": true, "target-del": true}
 
 func execHistory(c HistoryCase) (v ev.Verdict) {
 	if c.M == nil || len(c.M.Targets) == 0 {
